@@ -533,7 +533,7 @@ package psatoken
 //@   requires c != nil && wfComps(c.SwComponents) && inputComps(scs)
 //@   ensures[iff] (ret == nil) == (scs != nil && inputCompsValid(scs))
 //@   ensures[set] ret == nil ==> wfComps(c.SwComponents) && c.SwComponents != nil && sameComps(compsOf(c.SwComponents), scs)
-//@   ensures[unchanged] ret != nil ==> (old(c.SwComponents) == nil ==> wfComps(c.SwComponents) && specNoComps(c.SwComponents)) && (old(c.SwComponents) != nil ==> c.SwComponents == old(c.SwComponents) && compsOf(c.SwComponents) == old(compsOf(c.SwComponents)))
+//@   ensures[unchanged] ret != nil ==> c.SwComponents == old(c.SwComponents) && (c.SwComponents != nil ==> compsOf(c.SwComponents) == old(compsOf(c.SwComponents)))
 //@   ensures[class] ret != nil ==> errOnly(ret, ErrMissingMandatory) || errOnly(ret, ErrWrongSyntax)
 //@   modifies c.SwComponents, c.SwComponents.(*SwComponents[*SwComponent]).values
 
@@ -920,6 +920,7 @@ package psatoken
 //@   property C07 C16 C12 C08 C05 C18 C17
 //@   ensures[err] ret1 != nil ==> ret0 == nil
 //@   ensures[syntax] !jsonObjOK(bytesVal(buf)) ==> ret1 != nil
+//@   ensures[null] jsonIsNull(bytesVal(buf)) ==> ret1 != nil
 //@   ensures[multi] existsT(k1, string, existsT(k2, string, jsonMatch(bytesVal(buf), k1) && jsonMatch(bytesVal(buf), k2) && profName(profilesRegister[k1].Profile) != profName(profilesRegister[k2].Profile))) ==> ret1 != nil
 //@   ensures[nomatch] existsT(k, string, jsonDecl(bytesVal(buf), k)) && !existsT(k, string, jsonMatch(bytesVal(buf), k)) ==> ret1 != nil
 //@   ensures[default] ret1 == nil && !existsT(k, string, jsonDecl(bytesVal(buf), k)) ==> typeIs(ret0, *P1Claims) && dynType(ret0) == profClaimsType(profilesRegister[""].Profile)
